@@ -45,7 +45,9 @@ func Introspect(w http.ResponseWriter, r *http.Request, introspector Introspecto
 	}
 	err = introspector.Storage().SetIntrospectionFromToken(r.Context(), response, tokenID, subject, clientID)
 	if err != nil {
-		httphelper.MarshalJSON(w, response)
+		// the storage may have (partially) filled the response before it failed:
+		// an inactive answer must not disclose anything but active=false
+		httphelper.MarshalJSON(w, new(oidc.IntrospectionResponse))
 		return
 	}
 	response.Active = true
